@@ -317,6 +317,7 @@ impl Ingester {
             }
 
             // Normal single-write path
+            let mut wal_seq = None;
             if let Some(wal) = self.wal.as_ref() {
                 let seq = match wal.lock().await.append(&batch).await {
                     Ok(seq) => {
@@ -328,7 +329,7 @@ impl Ingester {
                         return Err(e);
                     }
                 };
-                self.last_wal_seq.store(seq, Ordering::Release);
+                wal_seq = Some(seq);
             } else if self.config.wal.enabled {
                 telemetry::record_wal_operation("append", "error");
                 if !self.wal_warned.swap(true, Ordering::Relaxed) {
@@ -338,7 +339,8 @@ impl Ingester {
                 }
             }
 
-            self.append_to_buffer_and_maybe_flush(batch, batch_size).await?;
+            self.append_to_buffer_and_maybe_flush(batch, batch_size, wal_seq)
+                .await?;
 
             // Record write metrics for hot shard detection
             let write_latency = start_time.elapsed();
@@ -362,6 +364,7 @@ impl Ingester {
             .await?
             .ok_or_else(|| Error::Internal("Split state disappeared".to_string()))?;
 
+        let mut wal_seq = None;
         if let Some(wal) = self.wal.as_ref() {
             let seq = match wal.lock().await.append(&batch).await {
                 Ok(seq) => {
@@ -373,7 +376,7 @@ impl Ingester {
                     return Err(e);
                 }
             };
-            self.last_wal_seq.store(seq, Ordering::Release);
+            wal_seq = Some(seq);
         } else if self.config.wal.enabled {
             telemetry::record_wal_operation("append", "error");
             if !self.wal_warned.swap(true, Ordering::Relaxed) {
@@ -384,8 +387,12 @@ impl Ingester {
         }
 
         // Write to old shard first (for consistency during transition)
-        self.append_to_buffer_and_maybe_flush(batch.clone(), batch.get_array_memory_size())
-            .await?;
+        self.append_to_buffer_and_maybe_flush(
+            batch.clone(),
+            batch.get_array_memory_size(),
+            wal_seq,
+        )
+        .await?;
 
         // Split batch by key range and write to new shards
         let (batch_a, batch_b) = self.split_batch_by_key(&batch, &split_state.split_point)?;
@@ -589,6 +596,7 @@ impl Ingester {
         &self,
         batch: RecordBatch,
         batch_size: usize,
+        wal_seq: Option<u64>,
     ) -> Result<()> {
         let mut pending_batch = Some(batch);
 
@@ -616,6 +624,11 @@ impl Ingester {
                 .take()
                 .ok_or_else(|| Error::Internal("Missing pending batch".to_string()))?;
             buffer.append(incoming)?;
+            // Only now may a flush cover this write's WAL entry: a schema-change flush
+            // above must not persist a mark that includes rows not yet buffered.
+            if let Some(seq) = wal_seq {
+                self.last_wal_seq.store(seq, Ordering::Release);
+            }
             let max_buffer_size = self.config.max_buffer_size_bytes.max(1) as f64;
             telemetry::record_buffer_fullness_ratio(buffer.size_bytes() as f64 / max_buffer_size);
 
